@@ -1,18 +1,125 @@
 /-
 C17 — back-reference serialization round-trips and never grows.
 
-Property theorems only; helper lemmas are in `Lemmas/BackrefSer*.lean`.  The models are
-`ClvmModel/Serde/SerBr.lean` (`src/serde/ser_br.rs`), `ClvmModel/Serde/ReadCache.lean`
-(`src/serde/read_cache_lookup.rs`, node identity = tree content) and the decoders of
-`ClvmModel/Serde/Backref.lean`.
+Property theorems only; helper lemmas are in `Lemmas/BackrefSer.lean` (invariants of
+`ReadCacheLookup`, soundness of `find_path`) and `Lemmas/BackrefRoundTrip.lean` (serializer/decoder
+lock step).  The models are `ClvmModel/Serde/SerBr.lean` (`src/serde/ser_br.rs`),
+`ClvmModel/Serde/ReadCache.lean` (`src/serde/read_cache_lookup.rs`; node identity = tree content,
+i.e. SHA-256 tree hashes are assumed collision-free) and the decoders of `ClvmModel/Serde/Backref.lean`.
+
+Determinism.  `nodeToBytesBackrefs` is a pure function of the tree's content, so "identical from run
+to run" holds by construction of the model; what it rests on in the Rust is stated in
+`tools/props/C17.json` (no iteration over `count`, `parent_lookup`, `seen_ids`, the `ObjectCache`
+maps; read cache keyed by tree hash, not by `NodePtr`; candidate paths are sorted before one is
+chosen).  The correspondence stream and the run-to-run / allocator-to-allocator oracle tie the model
+to the crate on this point.
 -/
-import ClvmProofs.Lemmas.BackrefSer
+import ClvmProofs.Lemmas.BackrefRoundTrip
 
 namespace Clvm.Props.C17
-open Clvm Clvm.Backref Clvm.Serde Clvm.Serde.ReadCache Clvm.Serde.SerBr
+open Clvm Clvm.Backref Clvm.Serde Clvm.Serde.Backref Clvm.Serde.ReadCache Clvm.Serde.SerBr
 
 /-- the serializer and the decoders use the same two markers -/
 theorem markers_agree : Gen.serBrBackReference = Gen.deBrBackReference ∧
     Gen.serBrConsBoxMarker = Gen.deBrConsBoxMarker := by decide
+
+/-- **`parent_sound` and `stack_mirror` are invariants of `ReadCacheLookup`**: they hold initially and
+are preserved by `push` and `pop2_and_cons`; `push id` conses `id` onto the tracked root, and
+`pop2_and_cons` turns the tracked root `(r . (l . rest))` into `((l . r) . rest)` — exactly the
+decoder's stack operations. -/
+theorem rcl_invariant :
+    RInv RCL.new ∧
+    (∀ (s : RCL) (id : Tree), RInv s → RInv (s.push id) ∧ (s.push id).root = Tree.pair id s.root) ∧
+    (∀ (s s' : RCL), RInv s → s.pop2AndCons = .ok s' →
+      RInv s' ∧ ∃ l r rest, s.root = Tree.pair r (Tree.pair l rest) ∧ s'.root = Tree.pair (Tree.pair l r) rest) :=
+  ⟨RInv.new, fun _ id h => h.push id, fun _ _ h hp => pop2AndCons_spec h hp⟩
+
+/-- **`find_path_sound`**: whatever the counts say, a path returned by `find_path` encodes a list of
+directions that leads from the tracked root to the requested node, and its serialized atom is at
+most `serialized_length - 1` bytes long (so `0xfe` + path never exceeds the node's own
+serialization). -/
+theorem find_path_sound (s : RCL) (hs : RInv s) (id : Tree) (sl : Nat) (b : Bytes)
+    (h : s.findPath id sl = .ok (some b)) :
+    ∃ path, reversedPathToVecU8 path = .ok b ∧ follow path.reverse s.root = some id ∧
+      ∃ pl, atomLengthBits (path.length + 1) = .ok (some pl) ∧ pl ≤ sl - 1 :=
+  findPath_sound s hs id sl b h
+
+/-- the full round-trip statement: whatever `node_to_stream_backrefs` wrote for `t` (to an unlimited
+or a size-limited writer) is decoded by the legacy and by the current decoder to `t` again,
+consuming exactly those bytes — unless the decoder's allocator runs into one of its limits
+(`TooManyPairs`, `TooManyAtoms`, `OutOfMemory`). -/
+def RoundTrip : Prop :=
+  ∀ (t : Tree) (w w' : Classic.Writer), nodeToStreamBackrefs t w = .ok w' →
+    ∃ out, w'.out = w.out ++ out ∧ ∀ (rest : Bytes) (c : Ctr), c.pairs + c.ghostPairs ≤ Gen.maxNumPairs →
+      ((∃ e, deBrOld (out ++ rest) [.sexp] Tree.nil c = .error e ∧ limitErr e) ∨
+        ∃ c', deBrOld (out ++ rest) [.sexp] Tree.nil c = .ok (t, rest, c')) ∧
+      ((∃ e, deBrNew (out ++ rest) [.sexp] [] c = .error e ∧ limitErr e) ∨
+        ∃ c', deBrNew (out ++ rest) [.sexp] [] c = .ok (t, rest, c'))
+
+/-- **`de_br (ser_br t) = t`**, from the lock-step invariant "tracked root = decoder stack", given
+that the path codec is correct (`PathCodec`: the bytes `reversed_path_to_vec_u8` writes for a list of
+directions are walked by `traverse_path` along exactly these directions). -/
+theorem de_br_ser_br_of_codec (codec : PathCodec) : RoundTrip := by
+  intro t w w' h
+  unfold nodeToStreamBackrefs at h
+  obtain ⟨out, ho, hd⟩ := serLoop_decodes codec _ [t] rfl [.parse] RCL.new w w' (Tree.pair t Tree.nil) h
+    RInv.new (by simp) (by simp [finalRoot, RCL.new])
+  refine ⟨out, ho, fun rest c hc => ?_⟩
+  have hold : (∃ e, deBrOld (out ++ rest) [.sexp] Tree.nil c = .error e ∧ limitErr e) ∨
+      ∃ c', deBrOld (out ++ rest) [.sexp] Tree.nil c = .ok (t, rest, c') := by
+    rcases hd rest c hc with ⟨e, he, hl⟩ | ⟨c', _, he⟩
+    · exact .inl ⟨e, he, hl⟩
+    · right
+      refine ⟨c', ?_⟩
+      have : deBrOld (out ++ rest) (opsOf [.parse]) RCL.new.root c = deBrOld rest [] (Tree.pair t Tree.nil) c' := he
+      rw [show opsOf [.parse] = [.sexp] from rfl, show RCL.new.root = Tree.nil from rfl] at this
+      rw [this, deBrOld]
+  refine ⟨hold, ?_⟩
+  have hrel : Rel [] c Tree.nil c := ⟨rfl, trivial, Nat.zero_le _, hc, SameTotals.refl c⟩
+  have hs := deBr_sim _ (out ++ rest) rfl [.sexp] [] c Tree.nil c hrel
+  revert hs
+  generalize deBrNew (out ++ rest) [.sexp] [] c = X
+  intro hs
+  rcases hold with ⟨e, he, hl⟩ | ⟨c', he⟩
+  · rw [he] at hs
+    left
+    cases hs with
+    | err hn =>
+      rename_i e1
+      refine ⟨e1, rfl, ?_⟩
+      cases e <;> cases e1 <;> simp_all [normErr, limitErr]
+  · rw [he] at hs
+    right
+    cases hs with
+    | ok hr =>
+      rename_i r
+      obtain ⟨t', rest', c1⟩ := r
+      obtain ⟨h1, h2, _⟩ := hr
+      simp only at h1 h2
+      subst h1; subst h2
+      exact ⟨c1, rfl⟩
+
+/-- **`ser_br (de_br (ser_br t)) = ser_br t`** (function of content): anything a decoder returns for
+the serializer's output re-serializes to the same bytes. -/
+theorem ser_de_ser_of_codec (codec : PathCodec) (t t' : Tree) (b rest' : Bytes) (c c' : Ctr)
+    (hinv : c.pairs + c.ghostPairs ≤ Gen.maxNumPairs)
+    (hser : nodeToBytesBackrefs t = .ok b) (hde : deBrNew b [.sexp] [] c = .ok (t', rest', c')) :
+    nodeToBytesBackrefs t' = .ok b := by
+  unfold nodeToBytesBackrefs at hser
+  cases hw : nodeToStreamBackrefs t { out := [], limit := none } with
+  | error e => simp [hw] at hser
+  | ok w' =>
+    simp only [hw, Except.ok.injEq] at hser
+    obtain ⟨out, ho, hd⟩ := de_br_ser_br_of_codec codec t _ w' hw
+    have hb : b = out := by rw [← hser, ho]; rfl
+    have := (hd [] c hinv).2
+    rw [List.append_nil, ← hb, hde] at this
+    rcases this with ⟨e, he, _⟩ | ⟨c'', he⟩
+    · cases he
+    · simp only [Except.ok.injEq, Prod.mk.injEq] at he
+      obtain ⟨rfl, _, _⟩ := he
+      unfold nodeToBytesBackrefs
+      rw [hw]
+      simp only [hser]
 
 end Clvm.Props.C17
